@@ -9,8 +9,8 @@ COMMON_NOTE = ("Trusted: Lean 4.33.0 kernel; axioms propext, Classical.choice, Q
 #          a new chain with other parameters every 8 round trips)
 # replica: ops = number of blocks of the one history that all four replicas execute
 SUITES = {
-    "genesis": dict(quick_ops=64, thorough_ops=320, driver="genesis", accept_floor=50),
-    "replica": dict(quick_ops=160, thorough_ops=500, driver="replica", accept_floor=50),
+    "genesis": dict(quick_ops=120, thorough_ops=600, driver="genesis", accept_floor=50),
+    "replica": dict(quick_ops=240, thorough_ops=1000, driver="replica", accept_floor=50),
 }
 
 _C18_ASSUME = [
@@ -97,7 +97,7 @@ TEXT = {
               "identically), reimport_inv / roundtrip_iterate (the invariants hold again, so the round trip can be iterated), "
               "roundtrip_monitors (the monitors hold on model transitions). PARTIAL at the encoding level: protobuf/JSON and the SDK modules' "
               "own genesis are exercised only by the correspondence, which performs the real round trip (export -> fresh InitChain -> export) "
-              "on generated block histories (64 quick / 8x320 thorough), compares sections, gRPC answers and the raw KV pairs of the module "
+              "on generated block histories (120 quick / 8x600 thorough), compares sections, gRPC answers and the raw KV pairs of the module "
               "stores (reach check), and ties the model to the code by parsing each export into the model and comparing validate, init, "
               "re-export and predicted store keys."),
         note=COMMON_NOTE + "Assumed: the invariants hold of the exported state (checked per checkpoint through the model/implementation "
